@@ -43,7 +43,12 @@ func (e *readerErr) Error() string { return fmt.Sprintf("injected error %d", e.t
 
 var injected = map[int]*readerErr{}
 
+var sentinels = map[int]error{100: io.ErrShortWrite, 101: io.EOF, 102: io.ErrClosedPipe, 103: io.ErrUnexpectedEOF}
+
 func injectedErr(tag int) error {
+	if e, ok := sentinels[tag]; ok {
+		return e
+	}
 	if e, ok := injected[tag]; ok {
 		return e
 	}
@@ -749,7 +754,11 @@ func runCase(line string) (res string) {
 		for _, c := range w.calls {
 			calls = append(calls, hexs(c))
 		}
-		return fmt.Sprintf("n=%d err=%s calls=%s", n, errClass(err), strings.Join(calls, ","))
+		ec := errClass(err)
+		if err != nil && err == w.err {
+			ec = "reader:" + f[2][strings.LastIndexAny(f[2], "F:")+1:] // the writer's own error, by identity
+		}
+		return fmt.Sprintf("n=%d err=%s calls=%s", n, ec, strings.Join(calls, ","))
 	}
 	return "DRIVER-ERROR unknown case"
 }
